@@ -669,7 +669,7 @@ func runC14(r *Run) error {
 		// one operation of a chain: Create (flag = overwrite), Open (flag = local-only), or
 		// closing every handle obtained so far; dir = the Directory option
 		type step struct {
-			kind int // 0 create, 1 open, 2 close all
+			kind int // 0 create, 1 open, 2 close all, 3 an overwriting create that fails (outside the modelled chain)
 			flag bool
 			dir  int
 		}
@@ -706,6 +706,28 @@ func runC14(r *Run) error {
 				if stp.kind == 2 {
 					ops, obs, names = append(ops, "DCloseAll"), append(obs, closeAll()), append(names, "close-all")
 					have, seen = have && !mem, seen && !mem
+					continue
+				}
+				if stp.kind == 3 {
+					// a Create with overwrite of the database that exists here, which fails after the
+					// address was determined (a document store with incomplete store options): it is
+					// no step of the modelled chain - the database was there before and is there
+					// afterwards, so what follows is decided as if it had not happened
+					if in.typ != "docstore" || !have || mem {
+						continue
+					}
+					fo := mkOpts(boolp(true), nil, c14ACParams(acw, idx), dirOpt(peer, stp.dir))
+					fo.StoreSpecificOpts = &iface.CreateDocumentDBOptions{}
+					fst, ferr := s.Reps[peer].Orbit.Create(ctx, in.name, in.typ, fo)
+					if ferr == nil {
+						r.Count("chain:overwrite-create-meant-to-fail-succeeded")
+						if fst != nil {
+							held = append(held, fst)
+							closeAll()
+						}
+					} else {
+						r.Count("chain:failed-overwrite-create-of-existing-database")
+					}
 					continue
 				}
 				var st iface.Store
@@ -783,7 +805,7 @@ func runC14(r *Run) error {
 		// the creator, on disk
 		{
 			ds := drawDirs(7)
-			steps := []step{{0, first, ds[0]}, {0, false, ds[1]}, {0, true, ds[2]}, {1, true, ds[3]}}
+			steps := []step{{0, first, ds[0]}, {3, true, 0}, {0, false, ds[1]}, {0, true, ds[2]}, {1, true, ds[3]}}
 			hold := r.Rng.Intn(3) == 0
 			if hold {
 				// once the handles are closed everything is as before on disk
